@@ -1,0 +1,132 @@
+//go:build verif
+
+package data
+
+// Contracts for govc (/verif). Comment-only file: no executable code, not part of the default build.
+// C45 / C18: the hand-written part of the protocol codec, BigIntCaster (custom gogo-proto type of every *big.Int field).
+//
+// Wire format of a big integer field (content of the length-delimited field):
+//   nil        -> 00
+//   0          -> 00 00
+//   v != 0     -> <sign: 00 | 01> <minimal big-endian magnitude of |v|>
+
+/*@
+spec fn absv(v int) int = v < 0 ? 0 - v : v
+spec fn signByte(v int) int = v < 0 ? 1 : 0
+
+// big-endian value of a byte string: 0 / the byte itself for lengths 0 / 1, uninterpreted above (be0). No quantified
+// axioms: the obligations that fail below then get concrete solver models.
+spec fn be0(s string) int
+spec fn be(s string) int = len(s) == 0 ? 0 : (len(s) == 1 ? s[0] : be0(s))
+
+// minimal big-endian byte string of |v| (what big.Int.Bytes returns); uninterpreted, its facts are stated at extern Bytes
+spec fn mag(v int) string
+spec fn magFacts(v int) bool = len(mag(v)) >= 0 && be(mag(v)) == absv(v) && ((len(mag(v)) == 0) <==> v == 0) && (len(mag(v)) > 0 ==> mag(v)[0] != 0)
+
+spec fn sizeOf(v int) int = v == 0 ? 2 : len(mag(v)) + 1
+
+extern func (x *big.Int) Bytes() (r []byte)
+  requires x != nil
+  ensures  minimal-magnitude: str(r) == mag(big(x))
+  ensures  magnitude-facts: magFacts(big(x))             // value |x|, empty iff 0, no leading zero byte
+  ensures  fresh(r)
+  assigns  nothing
+
+extern func (z *big.Int) SetBytes(b []byte) (r *big.Int)
+  requires z != nil
+  ensures  r == z
+  ensures  big-endian: big(z) == be(str(b))
+  ensures  non-negative: big(z) >= 0
+  assigns  big(z)
+
+func (c *BigIntCaster) Equal(a *big.Int, b *big.Int) (r bool)
+  requires both-or-none: a != nil ==> b != nil          // a != nil && b == nil panics inside big.Int.Cmp
+  ensures  nil-only-equals-nil: a == nil ==> (r <==> b == nil)
+  ensures  same-value: a != nil ==> (r <==> big(a) == big(b))
+  assigns  nothing
+
+func (c *BigIntCaster) Size(a *big.Int) (r int)
+  ensures  nil-is-one-byte: a == nil ==> r == 1
+  ensures  value-size: a != nil ==> r == sizeOf(big(a))
+  ensures  at-least-one: r >= 1
+  assigns  nothing
+
+func (c *BigIntCaster) MarshalTo(a *big.Int, buf []byte) (n int, err error)
+  requires room-for-nil-marker: len(buf) >= 1          // environment: generated code passes dAtA[i:] with Size(a) bytes
+  ensures  nil-enc: a == nil ==> n == 1 && err == nil && buf[0] == 0
+  ensures  short-buffer: a != nil && len(buf) <= len(mag(big(a))) ==> err != nil && n == 0
+  ensures  accepted: a != nil && len(buf) > len(mag(big(a))) ==> err == nil && n == sizeOf(big(a))
+  ensures  sign-byte: a != nil && err == nil ==> buf[0] == signByte(big(a))
+  ensures  magnitude: a != nil && err == nil ==> str(buf[1:1+len(mag(big(a)))]) == mag(big(a))
+  ensures  decodable: a != nil ==> magFacts(big(a))
+  ensures  rest-untouched: forall k :: n <= k && k < len(buf) ==> buf[k] == old(buf[k])
+  ensures  second-byte-of-zero-not-written: a != nil && big(a) == 0 && len(buf) >= 2 ==> buf[1] == old(buf[1])   // see lemma bigint-marshal-any-buffer
+  assigns  elems(buf)
+
+func (c *BigIntCaster) Unmarshal(buf []byte) (r *big.Int, err error)
+  ensures  empty-refused: len(buf) == 0 ==> err != nil
+  ensures  one-byte-is-nil: len(buf) == 1 ==> r == nil && err == nil
+  ensures  sign-checked: len(buf) >= 2 && buf[0] > 1 && !(len(buf) == 2 && buf[1] == 0) ==> err != nil
+  ensures  accepted: len(buf) >= 2 && buf[0] <= 1 ==> err == nil
+  ensures  error-means-nil: err != nil ==> r == nil
+  ensures  value: len(buf) >= 2 && err == nil ==> r != nil && fresh(r) && big(r) == (buf[0] == 1 ? 0 - be(str(buf[1:])) : be(str(buf[1:])))
+  assigns  nothing
+
+// ---- C45: round trip and determinism of the big-integer field codec (composition of the contracts above) ----
+
+// a buffer as the generated Marshal() provides it: Size(a) bytes, zeroed by make
+spec fn sizedZeroed(buf []byte, a *big.Int) bool = len(buf) >= 1 && (a != nil ==> len(buf) >= sizeOf(big(a)) && (big(a) == 0 ==> buf[1] == 0))
+
+lemma bigint-round-trip
+  vars c *BigIntCaster, a *big.Int, buf []byte
+  hyp  sizedZeroed(buf, a)
+  call n, err = c.MarshalTo(a, buf)
+  call r, err2 = c.Unmarshal(buf[:n])
+  concl encodes: err == nil
+  concl decodes: err2 == nil
+  concl nil-round-trip: a == nil <==> r == nil
+  concl value-round-trip: a != nil ==> big(r) == big(a)
+
+lemma bigint-size-is-encoded-length
+  vars c *BigIntCaster, a *big.Int, buf []byte
+  hyp  sizedZeroed(buf, a)
+  call sz = c.Size(a)
+  call n, err = c.MarshalTo(a, buf)
+  concl exact: err == nil && n == sz
+
+lemma bigint-deterministic
+  vars c *BigIntCaster, a1 *big.Int, a2 *big.Int, b1 []byte, b2 []byte
+  hyp  sizedZeroed(b1, a1) && sizedZeroed(b2, a2)
+  hyp  same-content: (a1 == nil <==> a2 == nil) && (a1 != nil ==> big(a1) == big(a2))
+  hyp  base(b1) != base(b2)
+  call n1, e1 = c.MarshalTo(a1, b1)
+  call n2, e2 = c.MarshalTo(a2, b2)
+  concl same-length: n1 == n2
+  concl same-first-byte: b1[0] == b2[0]
+  concl same-rest: str(b1[1:n1]) == str(b2[1:n2])
+
+// EXPECTED TO FAIL (finding F45): without the "zeroed" hypothesis the value 0 is written as <00> <whatever was in buf[1]>
+// (and with a one-byte buffer MarshalTo reports 2 bytes written): MarshalTo does not write the second byte of the
+// encoding of 0. Reproduction: $VF/repro/C45_F45_test.go.
+lemma bigint-marshal-any-buffer
+  vars c *BigIntCaster, a *big.Int, buf []byte
+  hyp  len(buf) >= 1
+  call n, err = c.MarshalTo(a, buf)
+  call r, err2 = c.Unmarshal(buf[:n])
+  concl written-inside-buffer: err == nil ==> n <= len(buf)
+  concl value-round-trip: err == nil && a != nil && n <= len(buf) ==> err2 == nil && r != nil && big(r) == big(a)
+@*/
+
+// ---- C18: the decoder of big-integer fields accepts encodings other than the one MarshalTo produces ----
+/*@
+// EXPECTED TO FAIL (finding F18, BigIntCaster part): acceptance does not imply the canonical form. Accepted and non-canonical:
+// any single byte (decodes to nil), <xx 00> for any xx (decodes to 0), leading zero bytes in the magnitude, sign byte 01 with
+// magnitude 0 ("negative zero", 3 bytes or more). Reproduction: $VF/repro/C18_F18_bigint_test.go.
+lemma bigint-decoder-accepts-only-canonical
+  vars c *BigIntCaster, buf []byte
+  call r, err = c.Unmarshal(buf)
+  concl nil-marker-is-zero: err == nil && r == nil ==> buf[0] == 0
+  concl sign-byte-matches-sign: err == nil && r != nil ==> buf[0] == signByte(big(r))
+  concl zero-has-two-bytes: err == nil && r != nil && big(r) == 0 ==> len(buf) == 2
+  concl no-leading-zero: err == nil && r != nil && big(r) != 0 ==> buf[1] != 0
+@*/
